@@ -35,7 +35,7 @@ PROPS = {
     'C04': P('C04', [], ('C04', 6000, 100000),
              "oracle: scheme spellings (case, named/decimal/hex references, escapes, embedded controls, percent escapes) x 8 syntactic positions; every Link/Image/Autolink url and every rendered href/src is fed to a WHATWG-style scheme extractor",
              ["browser behaviour is modelled by WHATWG URL pre-processing (strip C0/space at the ends, drop TAB/LF/CR) + ASCII-case-insensitive scheme"]),
-    'C05': P('C05', [], ('C05', 6000, 100000),
+    'C05': P('C05', [('inlineops', 2000, 30000)], ('C05', 6000, 100000),
              "oracle: RangesOk on every parsed tree (root covers input, boundaries, nesting, sibling order, text/markup fidelity) for all generators x configurations with the paragraph rule; non-trivial = tree with more than 3 nodes",
              ["whole-tree induction is _partial (Layer 3); covered by the oracle"]),
     'C06': P('C06', [], ('C06', 3000, 60000),
@@ -62,7 +62,7 @@ PROPS = {
     'C13': P('C13', [], ('C13', 4000, 80000),
              "oracle: k definitions (case/whitespace/case-fold variants, in quotes and items, before/after the use) x 4 use forms; expected target = first definition of the same base label",
              ["U+0131 dotless i is additionally identified with i/I by lower-then-upper normalisation (documented, not tested as a non-match)"]),
-    'C14': P('C14', [], ('C14', 5000, 100000),
+    'C14': P('C14', [('inlineops', 2000, 30000)], ('C14', 5000, 100000),
              "oracle: WF on every parsed tree for all generators x configurations containing the paragraph rule",
              []),
     'C15': P('C15', [('smap', 150, 2500)], ('C15', 300, 5000),
